@@ -542,6 +542,15 @@ def oracle_bb(c):
                     fail(f'{w.name}: packet {p.packet_id}: loss draw {x!r} vs loss rate {loss!r} but the packet was {"" if kept else "not "}delivered',
                          'wire-loss-rule')
                     break
+        # every wire built with the loss rate loses by it: n packets all kept has probability (1-p)^n, all discarded p^n
+        for w in busy:
+            n, kept = len(w.arrivals), len(w.deliveries)
+            if kept == n and (1 - loss) ** n <= 2.0 ** -24:
+                fail(f'{w.name} (loss rate {loss}) delivered every one of {n} packets (chance {(1 - loss) ** n:.1e})', 'wire-loss-never')
+            elif kept == 0 and loss ** n <= 2.0 ** -24:
+                fail(f'{w.name} (loss rate {loss}) discarded every one of {n} packets (chance {loss ** n:.1e})', 'wire-loss-always')
+        if fails:
+            return fails, wires
         # two wires / two cables carrying the same traffic do not lose the same packets ...
         pats = [(w, w.pattern()) for w in busy]
         for i in range(len(pats)):
